@@ -130,6 +130,20 @@ def fixed_corpus():
     # an unreachable derived level in the SECOND crossing (complete crossing not required)
     add(D([A2, B2, within('G', ['A', 'B'], preds=(('table', [['a0', 'b0'], ['a0', 'b1'], ['a1', 'b0'], ['a1', 'b1']]), 'else'))],
           multi('ABG', ['B', 'G'], mode='repeat', rcc=False)))
+    # a WEIGHTED level of a crossed derived factor with unequal completions, partial round of as many trials as there are
+    # distinct combinations
+    GW = {'name': 'G', 'window': {'kind': 'within', 'factors': ['A', 'C']},
+          'levels': [{'name': 'g0', 'pred': ['table', [['a0', 'c0'], ['a1', 'c1']]], 'weight': 2}, {'name': 'g1', 'else': True}]}
+    add(D([A2, C3, GW], repeat(cross('ACG', 'G'), [['MinimumTrials', 5]])))
+    add(D([A2, C3, GW], cross('ACG', 'G', [['MinimumTrials', 5]])))
+    # Pin at the first index beyond the block, and at the last ones inside it, counted from either end
+    add(D([A2, B2, C2], cross('ABC', 'AB', [['Pin', 4, 'C', 'c0']])))
+    add(D([A2, B2, C2], cross('ABC', 'AB', [['Pin', 3, 'C', 'c0']])))
+    add(D([A2, B2, C2], cross('ABC', 'AB', [['Pin', -4, 'C', 'c0']])))
+    add(D([A2, B2, C2], cross('ABC', 'AB', [['Pin', -5, 'C', 'c0']])))
+    add(D([A2, B2, C2], repeat(cross('ABC', 'A', [['Pin', 2, 'C', 'c0']]), [['MinimumTrials', 4]])))
+    # Nest whose OUTER crossing contains a within-trial derived factor with an uncrossed outer source
+    add(D([A2, B2, C2, CONG], nest(cross('ABG', 'G'), cross('C', 'C'))))
     # a two-trial preamble over a 3-level factor (3**2 preambles, not 3*2)
     add(D([A3, window('W', 'A', 3)], cross('AW', 'W')))
     # a window wider than the whole sequence (two trials), starting early: shifted source indices run past the grid
